@@ -171,6 +171,8 @@ class FunctorPool:
     A pool that uses given workers.
     """
 
+    RESULTS_WAIT_TIMEOUT = 0.1  # [s] how long to wait for a result before the finish condition is checked again
+
     class SendWorkThread(CMThread):
         """
         Thread for sending work to workers.
@@ -323,7 +325,11 @@ class FunctorPool:
             if len(chunks) > 0:
                 return indexes, chunks
 
-        res_i, res_chunk = self._results_queue.get()
+        try:
+            # the sending thread may finish without producing any further result, so do not wait forever
+            res_i, res_chunk = self._results_queue.get(timeout=self.RESULTS_WAIT_TIMEOUT)
+        except queue.Empty:
+            return [], []
         return [res_i], [res_chunk]
 
     def imap(self, data: Iterable[T], chunk_size: int = 1) -> Generator[R, None, None]:
